@@ -69,6 +69,14 @@ def check_lossless(w, GP, s, desc):
         for line in p.parseLines(s):
             pieces.append(line.fullText)
             nlines += 1
+            if line.gcode is not None:
+                # (b) on the SAME parser instance: state carried over from earlier lines must not leak into
+                # the normalised command of this line
+                cs = line.commandString
+                q = GP().parse(cs)
+                okb = alg.and_(v_eq(w, q.gcode, line.gcode), v_eq(w, q.subCode, line.subCode),
+                               s_eq(w, q.commandString, cs))
+                w.check(okb, "normalisation-stable", "%s: line %d of a multi-line text" % (desc, nlines))
             if nlines > 64:
                 break
     except AssertionError as ex:
@@ -190,6 +198,14 @@ def scen_template(w, free=2, lines=2, mode="lossless", full=0):
         check_lossless(w, GP, s, "%d template lines" % lines)
     else:
         check_normalisation(w, GP, parts[0], "template line")
+
+
+def validate():
+    from symx import validate as v, loader
+    gp = loader.mod("GcodeParser")
+    pats = [(k, getattr(gp, k).pattern) for k in ("REGEX_GCODE_LINE", "REGEX_GCODE_CODE", "REGEX_PARAMETERS",
+                                                   "REGEX_PARAMETER_OR_STR")]
+    return v.validate_regex(pats, 3)
 
 
 SCENARIOS = {"free-lossless": scen_free, "free-normal": scen_free, "tmpl-lossless": scen_template,
